@@ -625,6 +625,33 @@ func (n *vnet) forge(op gOp) {
 	n.emit(map[string]any{"a": "Forge", "b": op.B, "to": op.T, "item": op.I, "menu": op.Menu, "gs": n.decode(gs)})
 }
 
+// poison sends the hash of a known vertex with content that does not verify (one signature byte changed)
+func (n *vnet) poison(op gOp) {
+	it := n.items[op.I]
+	if it == nil || it.Kind != "vrx" || n.vrx[op.I] == nil || n.bad[op.T] {
+		return
+	}
+	before := n.lastID()
+	pv := vertexToProto(n.vrx[op.I])
+	pv.Signature = append([]byte{}, pv.Signature...)
+	pv.Signature[5] ^= 0x10
+	target := n.nodes[op.T]
+	res := "ok"
+	func() {
+		defer func() {
+			if r := recover(); r != nil {
+				res = "panic"
+			}
+		}()
+		if _, err := target.g.Server().GossipVrx(context.Background(), &pb.VrxMsgGossip{Vertex: pv}); err != nil {
+			res = "err"
+		}
+	}()
+	n.settle()
+	sent, gets := n.newSince(before)
+	n.emit(map[string]any{"a": "Poison", "b": op.B, "to": op.T, "item": op.I, "res": res, "adm": n.admitted(op.T), "new": sent, "gets": gets})
+}
+
 func vertexToProto(v *accountant.Vertex) *pb.Vertex {
 	return &pb.Vertex{
 		SignerPublicAddress: v.SignerPublicAddress, CreatedAt: uint64(v.CreatedAt.UnixNano()), Signature: v.Signature,
@@ -716,6 +743,8 @@ func (n *vnet) run() {
 			n.retry(op.N)
 		case "forge":
 			n.forge(op)
+		case "poison":
+			n.poison(op)
 		}
 	}
 	if b.Drain {
